@@ -379,6 +379,17 @@ func applyRQ(r *reassemblyQueue, m *rqModel, o rqOp, si uint16) string {
 			m.fwdUnorderedTSN(o.arg)
 		}
 	}
+	// bounded memory: the index of ordered I-DATA messages holds nothing but the messages
+	// that are in the queue (an entry left behind is never looked at again and never freed)
+	inList := map[*chunkSetMID]bool{}
+	for _, s := range r.orderedMID {
+		inList[s] = true
+	}
+	for mid, s := range r.orderedMIDMap {
+		if !inList[s] {
+			return fmt.Sprintf("index of ordered messages keeps an entry for MID %d (%d chunks) that is no longer queued", mid, len(s.chunks))
+		}
+	}
 	if held := reassemblyHeld(r); held != r.getNumBytes() {
 		return fmt.Sprintf("counter %d but chunks hold %d bytes", r.getNumBytes(), held)
 	}
@@ -416,6 +427,12 @@ func c11Reassembly(j *Job) {
 					s1 = uint32(uint16(s1))
 				}
 				ops = append(ops, rqOp{kind: 3, chunk: rqChunk{idata: idata}, arg: sb}, rqOp{kind: 3, chunk: rqChunk{idata: idata}, arg: s1})
+				// (the third message lies beyond the wrap of the sequence space in the second base)
+				s2 := sb + 2
+				if !idata {
+					s2 = uint32(uint16(s2))
+				}
+				ops = append(ops, rqOp{kind: 3, chunk: rqChunk{idata: idata}, arg: s2})
 				if idata {
 					ops = append(ops, rqOp{kind: 4, chunk: rqChunk{idata: idata}, arg: sb}, rqOp{kind: 4, chunk: rqChunk{idata: idata}, arg: sb + 1})
 				} else {
